@@ -362,6 +362,184 @@ func ttlCase(w *W, idx int) {
 	}
 }
 
+// ttlBoundaryCase: the cleanup beside an insert whose reserved row is the first of a new 16K block
+// (collection exactly full up to the block boundary, so the new block exists in the fill list
+// only). The reserved row has no TTL: it must be there after the insert committed, whatever the
+// cleanup did meanwhile. While the insert is open a few rows of an earlier block are given a 5 ms
+// TTL; the commit of the pass that removes them (its selection was taken while the insert was
+// open) is held at commit.beforeLatch until the insert has committed, then let go - the order
+// "selection, insert commits, cleanup commits" that a slow reader on the earlier block produces.
+// On even boundaries nothing is held.
+func ttlBoundaryCase(w *W, idx int) {
+	intervals := []time.Duration{time.Millisecond, 3 * time.Millisecond}
+	interval := intervals[idx%len(intervals)]
+	caseID := fmt.Sprintf("E7:ttl-boundary:interval=%s:%d", interval, idx)
+	w.Begin(idx, caseID)
+	rng := rngFor(w.Seed, 73, idx)
+	c := column.NewCollection(column.Options{Capacity: 1000, Vacuum: interval})
+	defer c.Close()
+	c.CreateColumn("id", column.ForInt64())
+	var passes, ours, held, gate int64
+	release := make(chan struct{})
+	var relMu sync.Mutex
+	hook := func(point string, cc *column.Collection, block uint32) {
+		if cc != c {
+			return
+		}
+		switch point {
+		case "vacuum.pass":
+			atomic.AddInt64(&passes, 1)
+		case "commit.beforeLatch":
+			if atomic.LoadInt64(&gate) == 1 && atomic.LoadInt64(&ours) == 0 {
+				relMu.Lock()
+				ch := release
+				relMu.Unlock()
+				atomic.AddInt64(&held, 1)
+				select {
+				case <-ch:
+				case <-time.After(20 * time.Second):
+				}
+			}
+		}
+	}
+	column.VerifHook.Store(&hook)
+	defer column.VerifHook.Store(nil)
+	fail := func(detail string) {
+		w.Violate(idx, caseID, fmt.Sprintf("[interval %s] %s", interval, detail), "", map[string]any{"phase": 1, "idx": idx})
+	}
+	stalled := false
+	waitFor := func(what string, cond func() bool) bool {
+		t0 := time.Now()
+		for !cond() {
+			if time.Since(t0) > 30*time.Second {
+				fail("the cleanup loop stopped: " + what + " did not happen within 30 s")
+				stalled = true
+				return false
+			}
+			time.Sleep(interval / 2)
+		}
+		return true
+	}
+	waitPasses := func(n int64) bool {
+		start := atomic.LoadInt64(&passes)
+		return waitFor(fmt.Sprintf("%d further passes", n), func() bool { return atomic.LoadInt64(&passes) >= start+n })
+	}
+	var boundaries, openPasses, heldCommits, expired int64
+	for b := 1; b <= 3 && !stalled; b++ {
+		last := uint32(b<<14) - 1
+		// fill every hole up to the boundary with rows that have no TTL
+		atomic.StoreInt64(&ours, 1)
+		c.Query(func(txn *column.Txn) error {
+			for full := false; !full; {
+				txn.Insert(func(row column.Row) error {
+					row.SetInt64("id", int64(row.Index())+1000000)
+					full = row.Index() >= last
+					return nil
+				})
+			}
+			return nil
+		})
+		atomic.StoreInt64(&ours, 0)
+		if n := c.Count(); n != b<<14 {
+			fail(fmt.Sprintf("count %d after filling every offset below %d", n, b<<14))
+			return
+		}
+		gated := b%2 == 1
+		atomic.StoreInt64(&held, 0)
+		var off uint32
+		reserved, goCh, done := make(chan struct{}), make(chan struct{}), make(chan error, 1)
+		p0 := atomic.LoadInt64(&passes)
+		go func() {
+			_, err := c.Insert(func(row column.Row) error {
+				off = row.Index()
+				row.SetInt64("id", int64(row.Index())+1000000)
+				close(reserved)
+				<-goCh
+				atomic.StoreInt64(&ours, 1)
+				return nil
+			})
+			atomic.StoreInt64(&ours, 0)
+			done <- err
+		}()
+		<-reserved
+		if off != last+1 {
+			fail(fmt.Sprintf("block %d: the insert into the full collection reserved offset %d, not %d", b, off, last+1))
+		}
+		ok := waitPasses(2)
+		if gated {
+			atomic.StoreInt64(&gate, 1)
+		}
+		// a few rows of an earlier block get a 5 ms TTL while the insert is open
+		var short []uint32
+		for i := 0; i < 4; i++ {
+			short = append(short, uint32(rng.Intn(b<<14-1))&^1) // even offsets: never the boundary row
+		}
+		atomic.StoreInt64(&ours, 1)
+		c.Query(func(txn *column.Txn) error {
+			for _, o := range short {
+				txn.QueryAt(o, func(row column.Row) error { row.SetTTL(5 * time.Millisecond); return nil })
+			}
+			return nil
+		})
+		atomic.StoreInt64(&ours, 0)
+		if ok && gated {
+			ok = waitFor("a cleanup commit for the expired rows", func() bool { return atomic.LoadInt64(&held) > 0 })
+		} else if ok {
+			ok = waitPasses(int64(10*time.Millisecond/interval) + 3)
+		}
+		openPasses += atomic.LoadInt64(&passes) - p0
+		close(goCh)
+		<-done
+		heldCommits += atomic.LoadInt64(&held)
+		atomic.StoreInt64(&gate, 0)
+		relMu.Lock()
+		close(release)
+		release = make(chan struct{})
+		relMu.Unlock()
+		if !ok {
+			return
+		}
+		// the expired rows go within K passes, the boundary row stays
+		gone := func() int {
+			n := 0
+			for _, o := range short {
+				if v, has := readExpire(c, o); !(has && v != 0 && present(c, o)) {
+					n++
+				}
+			}
+			return n
+		}
+		if !waitPasses(ttlK + 2) {
+			return
+		}
+		if g := gone(); g != len(short) {
+			fail(fmt.Sprintf("block %d: %d of %d rows given a 5 ms time-to-live are still present %d passes later", b, len(short)-g, len(short), ttlK+2))
+		}
+		expired += int64(len(short))
+		if !present(c, off) {
+			fail(fmt.Sprintf("block %d: row %d, inserted without a time-to-live as the first row of a new block while %d cleanup passes ran, is gone after its insert committed (cleanup commits held until the insert had committed: %d)", b, off, atomic.LoadInt64(&passes)-p0, atomic.LoadInt64(&held)))
+		}
+		distinct := map[uint32]bool{}
+		for _, o := range short {
+			distinct[o] = true
+		}
+		if n := c.Count(); n != b<<14+1-len(distinct) {
+			fail(fmt.Sprintf("block %d: count %d after the round; %d rows without a time-to-live plus the boundary row minus %d expired rows = %d", b, n, b<<14, len(distinct), b<<14+1-len(distinct)))
+		}
+		boundaries++
+	}
+	w.Stat("boundary_inserts_held_open", boundaries)
+	w.Stat("vacuum_passes_while_insert_open", openPasses)
+	w.Stat("cleanup_commits_held_until_insert_committed", heldCommits)
+	w.Stat("vacuum_passes_observed", atomic.LoadInt64(&passes))
+	w.Stat("rows_seen_expiring", expired)
+	w.Stat("must_live_row_checks", boundaries*16384)
+	w.Eval(hashOf("ttl-boundary", idx, interval), boundaries == 3 && heldCommits >= 1)
+	if idx < 2 {
+		w.Sample(map[string]any{"interval": interval.String(), "boundaries": boundaries, "passes_while_open": openPasses, "cleanup_commits_held": heldCommits})
+	}
+}
+
 func present(c *column.Collection, off uint32) bool {
 	found := false
 	c.Query(func(txn *column.Txn) error {
@@ -391,7 +569,7 @@ func showDeadline(d int64) string {
 
 func init() {
 	register(&Property{ID: "C17", Level: "exploration",
-		Rule: "one case = one collection with the real cleanup goroutine at a 1 / 5 / 20 ms interval, ~150 tracked rows in three blocks (no TTL, 1 h, short 40-300 ms, 1 h extended by +1 h, 1 h shortened to ~100 ms, short reset to never / 1 h) beside three writers doing unrelated updates on the same rows and inserting short-lived rows; safety: rows without TTL or with a deadline >= 1 h away must be present at every observation (no clock involved); a short-lived row found missing must not be more than 20 ms ahead of its deadline; bounded liveness: once an observation sees now > deadline, the row must be gone after K=5 further vacuum passes that started after the deadline (passes counted at the vacuum.pass hook); deadlines must be stored exactly as reported by SetTTL/Extend and equal after snapshot/restore and stream replay; non-trivial = at least one row seen expiring and more than 5 passes observed",
+		Rule: "one case = one collection with the real cleanup goroutine at a 1 / 5 / 20 ms interval, ~150 tracked rows in three blocks (no TTL, 1 h, short 40-300 ms, 1 h extended by +1 h, 1 h shortened to ~100 ms, short reset to never / 1 h) beside three writers doing unrelated updates on the same rows and inserting short-lived rows; safety: rows without TTL or with a deadline >= 1 h away must be present at every observation (no clock involved); a short-lived row found missing must not be more than 20 ms ahead of its deadline; bounded liveness: once an observation sees now > deadline, the row must be gone after K=5 further vacuum passes that started after the deadline (passes counted at the vacuum.pass hook); deadlines must be stored exactly as reported by SetTTL/Extend and equal after snapshot/restore and stream replay; non-trivial = at least one row seen expiring and more than 5 passes observed; phase 2 (block boundary): a collection filled exactly to 16384 / 32768 / 49152 rows, an insert held open whose reserved row is the first of the new block (which exists in the fill list only) while cleanup passes run and four rows of earlier blocks are given a 5 ms TTL; on odd boundaries the commit of the pass that removes them is held at commit.beforeLatch until the insert has committed; the boundary row (no TTL) must be present afterwards, the four rows gone within K+2 passes, and Count must be boundary + 1 - expired",
 		Assume: []string{"the wall clock does not step backwards by more than 20 ms during a case (a clock step can only withhold or, beyond that margin, wrongly raise the 'removed before its deadline' verdict)",
 			"a stalled cleanup loop is declared after 30 s without a pass at a <= 20 ms interval (1 500 missed ticks)",
 			"rows whose deadline was moved later are judged only when the moving transaction was acknowledged 150 ms before the old deadline"},
@@ -400,9 +578,16 @@ func init() {
 			if tier == "thorough" {
 				n = 180
 			}
-			return []Plan{{Cases: n, Workers: 6, MaxProcs: 4, Timeout: 30 * time.Minute, HangIsViol: true}}
+			return []Plan{{Cases: n, Workers: 6, MaxProcs: 4, Timeout: 30 * time.Minute, HangIsViol: true},
+				{Cases: n / 3, Workers: 6, MaxProcs: 4, Timeout: 30 * time.Minute, HangIsViol: true}}
 		},
-		Run:       func(w *W, phase, idx int) { ttlCase(w, idx) },
+		Run: func(w *W, phase, idx int) {
+			if phase == 1 {
+				ttlBoundaryCase(w, idx)
+				return
+			}
+			ttlCase(w, idx)
+		},
 		MinEvents: map[string]int64{"vacuum_passes_observed": 50, "rows_seen_expiring": 50, "must_live_row_checks": 1000},
 	})
 }
